@@ -10,6 +10,29 @@ Definition ev6 (e : env) : tid -> res -> list drops -> list event -> bool :=
   fun t r d tl => ev_C02 e t r d tl && ev_C03 e t r d tl && ev_C04 e t r d tl && ev_C05 e t r d tl
                   && ev_C06 e t r d tl && ev_C12 t r d tl.
 
+(** the part of them that does not depend on positions and indices coinciding: it holds for every
+    wrapped iterator, fused or not *)
+Definition ev5 (e : env) : tid -> res -> list drops -> list event -> bool :=
+  fun t r d tl => ev_C05 e t r d tl && ev_C06 e t r d tl && ev_C12 t r d tl.
+
+(** the part that needs a fused wrapped iterator *)
+Definition ev234 (e : env) : tid -> res -> list drops -> list event -> bool :=
+  fun t r d tl => ev_C02 e t r d tl && ev_C03 e t r d tl && ev_C04 e t r d tl.
+
+Lemma ev6_split e t r d tl : ev6 e t r d tl = ev234 e t r d tl && ev5 e t r d tl.
+Proof.
+  unfold ev6, ev234, ev5.
+  destruct (ev_C02 e t r d tl), (ev_C03 e t r d tl), (ev_C04 e t r d tl), (ev_C05 e t r d tl), (ev_C06 e t r d tl), (ev_C12 t r d tl); reflexivity.
+Qed.
+
+Lemma all_rets_ev6 e tr : all_rets (ev234 e) tr = true -> all_rets (ev5 e) tr = true -> all_rets (ev6 e) tr = true.
+Proof.
+  intros H1 H2. induction tr as [|ev tr IH]; [reflexivity|].
+  destruct ev as [u o|u r d|f r d]; cbn [all_rets] in *; try (apply IH; assumption).
+  apply andb_true_iff in H1. destruct H1 as [H1 H1']. apply andb_true_iff in H2. destruct H2 as [H2 H2'].
+  rewrite ev6_split, H1, H2, (IH H1' H2'). reflexivity.
+Qed.
+
 (** the iteration has been stopped: an end report or a returned skip_to_end *)
 Definition stopped2 (tr : list event) : bool := end_reported tr || skip_returned tr.
 
@@ -33,9 +56,10 @@ Hypothesis Hk : e_kind e = KIter.
 Variable L : list tid.
 Hypothesis NDL : NoDup L.
 
-(** the thread will not take an element any more *)
+(** the thread will not take an element any more: the completed flag is up and the thread has still
+    to test it *)
 Definition NT (sh : shared) (ts : tstate) : Prop :=
-  s_cur sh = e_len e \/ (s_f sh = true /\ before_gate (t_pc ts) = true).
+  s_f sh = true /\ before_gate (t_pc ts) = true.
 
 Definition nt_ok (tr : list event) (sh : shared) (t : tid) (ts : tstate) : Prop :=
   match pend_call t tr with
@@ -43,45 +67,73 @@ Definition nt_ok (tr : list event) (sh : shared) (t : tid) (ts : tstate) : Prop 
   | None => True
   end.
 
+(** the part that needs a fused wrapped iterator *)
+Record IInvBF (c : cfg) : Prop := {
+  bf_f    : s_f (c_sh c) = true -> s_cur (c_sh c) = e_len e \/ has_skip (c_trace c) = true \/ has_panic (c_trace c) = true;
+  bf_evs  : all_rets (ev234 e) (c_trace c) = true;
+  bf_cs   : s_cur (c_sh c) <= s_c (c_sh c)
+}.
+
+(** the invariant of every wrapped iterator, fused or not: an end report or a returned skip_to_end
+    means that the completed flag is up, and a call made after that never passes the test of the flag *)
 Record IInvB (c : cfg) : Prop := {
-  b_f    : s_f (c_sh c) = true -> s_cur (c_sh c) = e_len e \/ has_skip (c_trace c) = true \/ has_panic (c_trace c) = true;
-  b_end  : end_reported (c_trace c) = true -> s_f (c_sh c) = true \/ s_cur (c_sh c) = e_len e;
+  b_endf : end_reported (c_trace c) = true -> s_f (c_sh c) = true;
   b_skip : skip_returned (c_trace c) = true -> s_f (c_sh c) = true;
   b_nt   : forall t, nt_ok (c_trace c) (c_sh c) t (c_pool c t);
-  b_evs  : all_rets (ev6 e) (c_trace c) = true;
-  b_cs   : s_cur (c_sh c) <= s_c (c_sh c);
+  b_pubf : forall t q b g, t_pc (c_pool c t) = PPub q b g -> N.of_nat (length g) < q_n q -> s_f (c_sh c) = true;
+  b_evs5 : all_rets (ev5 e) (c_trace c) = true;
   b_len2 : forall t hm o older, t_pc (c_pool c t) = PLen2 hm -> pend_call t (c_trace c) = Some (o, older) ->
-             skip_returned older = false
+             skip_returned older = false;
+  b_fu   : fused e -> IInvBF c
 }.
+
+Lemma b_f c : IInvB c -> fused e -> s_f (c_sh c) = true ->
+  s_cur (c_sh c) = e_len e \/ has_skip (c_trace c) = true \/ has_panic (c_trace c) = true.
+Proof. intros I Hfu. apply (bf_f c (b_fu c I Hfu)). Qed.
+
+Lemma b_end c : IInvB c -> end_reported (c_trace c) = true -> s_f (c_sh c) = true \/ s_cur (c_sh c) = e_len e.
+Proof. intros I H. left. apply (b_endf c I H). Qed.
+
+Lemma b_evs c : IInvB c -> fused e -> all_rets (ev6 e) (c_trace c) = true.
+Proof. intros I Hfu. apply all_rets_ev6; [apply (bf_evs c (b_fu c I Hfu))|apply (b_evs5 c I)]. Qed.
+
+Lemma b_cs c : IInvB c -> fused e -> s_cur (c_sh c) <= s_c (c_sh c).
+Proof. intros I Hfu. apply (bf_cs c (b_fu c I Hfu)). Qed.
 
 Lemma iB_commit c t sh' ts' l evs :
   IInvB c -> In t L -> Forall (ev_of t) evs ->
-  (s_f (c_sh c) = true -> s_f sh' = true) -> (s_cur (c_sh c) = e_len e -> s_cur sh' = e_len e) ->
-  (s_f sh' = true -> s_cur sh' = e_len e \/ has_skip (evs ++ c_trace c) = true \/ has_panic (evs ++ c_trace c) = true) ->
-  (end_reported (evs ++ c_trace c) = true -> s_f sh' = true \/ s_cur sh' = e_len e) ->
+  (s_f (c_sh c) = true -> s_f sh' = true) ->
+  (end_reported (evs ++ c_trace c) = true -> s_f sh' = true) ->
   (skip_returned (evs ++ c_trace c) = true -> s_f sh' = true) ->
   nt_ok (evs ++ c_trace c) sh' t ts' ->
-  all_rets (ev6 e) (evs ++ c_trace c) = true ->
-  s_cur sh' <= s_c sh' ->
+  (forall q b g, t_pc ts' = PPub q b g -> N.of_nat (length g) < q_n q -> s_f sh' = true) ->
+  all_rets (ev5 e) (evs ++ c_trace c) = true ->
   (forall hm o older, t_pc ts' = PLen2 hm -> pend_call t (evs ++ c_trace c) = Some (o, older) -> skip_returned older = false) ->
+  (fused e -> IInvBF c ->
+     (s_f sh' = true -> s_cur sh' = e_len e \/ has_skip (evs ++ c_trace c) = true \/ has_panic (evs ++ c_trace c) = true) /\
+     all_rets (ev234 e) (evs ++ c_trace c) = true /\ s_cur sh' <= s_c sh') ->
   IInvB (commit c t sh' ts' l evs).
 Proof.
-  intros I Hin Fev Sf Sc Hf Hend Hskip Hnt Hevs Hcs Hl2. split; cbn [commit c_pool c_trace c_sh]; try assumption.
+  intros I Hin Fev Sf Hend Hskip Hnt Hpubf Hevs Hl2 HF. split; cbn [commit c_pool c_trace c_sh]; try assumption.
   - intros u. destruct (Nat.eq_dec u t) as [->|Hn].
     + rewrite upd_same. exact Hnt.
     + rewrite upd_other by assumption. pose proof (b_nt c I u) as H. unfold nt_ok in *.
       rewrite (pend_call_others t u evs _ Hn Fev).
       destruct (pend_call u (c_trace c)) as [[o older]|]; [|exact I0].
-      intros Hs. destruct (H Hs) as (Hn1 & Hn2 & Hn3). split; [|split; assumption].
-      unfold NT in *. destruct Hn1 as [H1|[H1 H2]]; [left; auto|right; split; auto].
+      intros Hs. destruct (H Hs) as ((Hn1 & Hn1') & Hn2 & Hn3). split; [|split; assumption].
+      unfold NT. split; [apply Sf; exact Hn1|exact Hn1'].
+  - intros u q b g. destruct (Nat.eq_dec u t) as [->|Hn].
+    + rewrite upd_same. apply Hpubf.
+    + rewrite upd_other by assumption. intros H1 H2. apply Sf. apply (b_pubf c I u q b g H1 H2).
   - intros u hm o older. destruct (Nat.eq_dec u t) as [->|Hn].
     + rewrite upd_same. apply Hl2.
     + rewrite upd_other by assumption. rewrite (pend_call_others t u evs _ Hn Fev). apply (b_len2 c I).
+  - intros Hfu. destruct (HF Hfu (b_fu c I Hfu)) as (H1 & H2 & H3). split; assumption.
 Qed.
 
 (** ** the per-event checks *)
 
-Lemma ev6_intro t r d tl o older :
+Lemma ev234_intro t r d tl o older :
   split_call t tl = Some (o, older) ->
   forallb (run_idx_ok e) (res_runs r) = true ->
   match o with
@@ -92,6 +144,19 @@ Lemma ev6_intro t r d tl o older :
   increasing (res_cover e r) = true ->
   all_above (iv_maxhi (cov_of e t tl)) (res_cover e r) = true ->
   all_above (iv_maxhi (cov e older)) (res_cover e r) = true ->
+  ev234 e t r d tl = true.
+Proof.
+  intros Hs H2 H3 H4a H4b H4c.
+  unfold ev234, ev_C02, ev_C03, ev_C04. rewrite Hs, H2, H4a, H4b, H4c. cbn [andb].
+  replace (match o with
+           | Chunk n k => (n =? 0) || chunk_ok e n k r
+           | BufNext k => match buf_size t older with Some c => chunk_ok e c k r | None => true end
+           | _ => true end) with true by (symmetry; exact H3).
+  reflexivity.
+Qed.
+
+Lemma ev5_intro t r d tl o older :
+  split_call t tl = Some (o, older) ->
   (end_reported older = true ->
      (if can_end o then is_end r || is_panic r else true) && delivers_nothing e r && no_positive r = true) ->
   (skip_returned older = true ->
@@ -104,32 +169,38 @@ Lemma ev6_intro t r d tl o older :
         | _, _ => true
         end = true) ->
   match o with Loop l c _ => if c =? 0 then is_panic r else loop_shape_ok l r | _ => true end = true ->
-  ev6 e t r d tl = true.
+  ev5 e t r d tl = true.
 Proof.
-  intros Hs H2 H3 H4a H4b H4c H5 H6 H12.
-  unfold ev6, ev_C02, ev_C03, ev_C04, ev_C05, ev_C06, ev_C12. rewrite Hs, H2, H4a, H4b, H4c. cbn [andb].
-  replace (match o with
-           | Chunk n k => (n =? 0) || chunk_ok e n k r
-           | BufNext k => match buf_size t older with Some c => chunk_ok e c k r | None => true end
-           | _ => true end) with true by (symmetry; exact H3).
-  cbn [andb].
+  intros Hs H5 H6 H12.
+  unfold ev5, ev_C05, ev_C06, ev_C12. rewrite Hs.
   destruct (end_reported older); [rewrite (H5 eq_refl)|]; cbn [andb];
   (destruct (skip_returned older); [rewrite (H6 eq_refl)|]); cbn [andb]; exact H12.
 Qed.
 
-Lemma ev6_null t r d tl o older :
-  split_call t tl = Some (o, older) -> null_pair o r = true -> ev6 e t r d tl = true.
+Lemma null_shapes o r : null_pair o r = true ->
+  res_cover e r = [] /\ res_runs r = [] /\ no_positive r = true.
 Proof.
-  intros Hs Hp.
-  assert (res_cover e r = [] /\ res_runs r = [] /\ no_positive r = true) as (Hc & Hr & Hn).
-  { destruct o, r; cbn [null_pair] in Hp; try discriminate; try (destruct rs; try discriminate); repeat split; reflexivity. }
-  apply ev6_intro with o older; try assumption.
+  intros Hp. destruct o, r; cbn [null_pair] in Hp; try discriminate; try (destruct rs; try discriminate); repeat split; reflexivity.
+Qed.
+
+Lemma ev234_null t r d tl o older :
+  split_call t tl = Some (o, older) -> null_pair o r = true -> ev234 e t r d tl = true.
+Proof.
+  intros Hs Hp. destruct (null_shapes o r Hp) as (Hc & Hr & Hn).
+  apply ev234_intro with o older; try assumption.
   - rewrite Hr. reflexivity.
   - destruct o, r; cbn [null_pair] in Hp; try discriminate; try reflexivity;
       cbn [chunk_ok]; rewrite ?orb_true_r; try reflexivity; destruct (buf_size t older); reflexivity.
   - rewrite Hc. reflexivity.
   - rewrite Hc. reflexivity.
   - rewrite Hc. reflexivity.
+Qed.
+
+Lemma ev5_null t r d tl o older :
+  split_call t tl = Some (o, older) -> null_pair o r = true -> ev5 e t r d tl = true.
+Proof.
+  intros Hs Hp. destruct (null_shapes o r Hp) as (Hc & Hr & Hn).
+  apply ev5_intro with o older; try assumption.
   - intros _. unfold delivers_nothing. rewrite Hc, Hn. cbn [iv_total N.eqb andb].
     destruct o, r; cbn [null_pair] in Hp; try discriminate; try (destruct rs; try discriminate);
       cbn [can_end is_pull is_end is_panic negb orb andb]; try reflexivity; destruct (n =? 0); reflexivity.
@@ -145,11 +216,11 @@ Qed.
 (** ** helpers *)
 
 Lemma stop_state c older : IInvB c -> suffix older (c_trace c) -> stopped2 older = true ->
-  s_f (c_sh c) = true \/ s_cur (c_sh c) = e_len e.
+  s_f (c_sh c) = true.
 Proof.
   intros I Hsuf Hs. unfold stopped2 in Hs. apply orb_true_iff in Hs. destruct Hs as [H|H].
-  - apply (b_end c I). eapply end_reported_suffix; eassumption.
-  - left. apply (b_skip c I). eapply skip_returned_suffix; eassumption.
+  - apply (b_endf c I). eapply end_reported_suffix; eassumption.
+  - apply (b_skip c I). eapply skip_returned_suffix; eassumption.
 Qed.
 
 Lemma f_mono_app (sh : shared) tr evs :
@@ -171,19 +242,23 @@ Proof.
   inversion Hops as [|? ? Hwo Hrest]; subst.
   unfold call. destruct (call_res e (c_pool c t) o) as [p|b r d] eqn:E.
   - destruct (call_go_iter e Hk _ _ _ E Hwo Hbuf) as (Tp & Cp & Np1 & Np2 & Nidle & Nbuf & Hreq & Hrq).
-    apply iB_commit; try assumption; auto.
+    apply iB_commit; [exact I|exact Hin|..].
     + repeat constructor.
-    + intros Hf. apply f_mono_app; [apply (b_f c I)|exact Hf].
-    + cbn [app end_reported]. apply (b_end c I).
+    + auto.
+    + cbn [app end_reported]. apply (b_endf c I).
     + cbn [app skip_returned]. apply (b_skip c I).
     + unfold nt_ok. cbn [app]. rewrite pend_call_self_call. cbn [t_pc t_acc]. intros Hs.
       assert (Hg : got_of p = []) by (destruct p; try reflexivity; discriminate Cp).
       split; [|split; [exact Hg|reflexivity]].
-      destruct (stop_state c (c_trace c) I (suffix_refl _) Hs) as [Hf|Hc]; [right|left; exact Hc].
-      split; [exact Hf|]. destruct p; try reflexivity; try discriminate Cp; contradiction.
-    + cbn [app]. rewrite all_rets_call. apply (b_evs c I).
-    + apply (b_cs c I).
+      split; [exact (stop_state c (c_trace c) I (suffix_refl _) Hs)|].
+      destruct p; try reflexivity; try discriminate Cp; contradiction.
+    + cbn [t_pc]. intros q b g Hp. contradiction (Np1 q b g).
+    + cbn [app]. rewrite all_rets_call. apply (b_evs5 c I).
     + cbn [t_pc]. intros hm o' older Hp _. subst p. contradiction.
+    + intros Hfu BF. split; [|split].
+      * intros Hf. apply f_mono_app; [apply (bf_f c BF)|exact Hf].
+      * cbn [app]. rewrite all_rets_call. apply (bf_evs c BF).
+      * apply (bf_cs c BF).
   - assert (Hall : null_pair o r = true /\ is_end r && can_end o = false /\ o <> Skip).
     { unfold call_res in E. destruct o; cbn [wf_op] in Hwo; try discriminate.
       - rewrite Hk in E. destruct (N.eqb_spec n 0) as [->|]; [|discriminate]. injection E as <- <- <-.
@@ -196,53 +271,66 @@ Proof.
       - destruct (N.eqb_spec c0 0); [|destruct (c0 =? 1); discriminate].
         injection E as <- <- <-. repeat split; try reflexivity; try discriminate. cbn [null_pair]. apply N.eqb_eq; assumption. }
     destruct Hall as (Hnull & Hne & Hns).
-    apply iB_commit; try assumption; auto.
+    assert (Hsp : split_call t (ECall t o :: c_trace c) = Some (o, c_trace c)) by (cbn [split_call]; rewrite Nat.eqb_refl; reflexivity).
+    apply iB_commit; [exact I|exact Hin|..].
     + repeat constructor.
-    + intros Hf. apply f_mono_app; [apply (b_f c I)|exact Hf].
-    + cbn [app end_reported split_call]. rewrite Nat.eqb_refl, Hne. cbn [orb]. apply (b_end c I).
+    + auto.
+    + cbn [app end_reported split_call]. rewrite Nat.eqb_refl, Hne. cbn [orb]. apply (b_endf c I).
     + cbn [app skip_returned split_call]. rewrite Nat.eqb_refl.
       destruct o; try (apply (b_skip c I)). contradiction Hns; reflexivity.
     + unfold nt_ok. cbn [app]. rewrite pend_call_self_ret. exact I0.
-    + cbn [app]. rewrite all_rets_ret, all_rets_call, (b_evs c I), andb_true_r.
-      apply ev6_null with o (c_trace c); [|exact Hnull]. cbn [split_call]. rewrite Nat.eqb_refl. reflexivity.
-    + apply (b_cs c I).
+    + cbn [t_pc]. intros q b0 g Hp. discriminate Hp.
+    + cbn [app]. rewrite all_rets_ret, all_rets_call, (b_evs5 c I), andb_true_r.
+      apply ev5_null with o (c_trace c); [exact Hsp|exact Hnull].
     + cbn [t_pc]. intros hm o' older Hp. discriminate Hp.
+    + intros Hfu BF. split; [|split].
+      * intros Hf. apply f_mono_app; [apply (bf_f c BF)|exact Hf].
+      * cbn [app]. rewrite all_rets_ret, all_rets_call, (bf_evs c BF), andb_true_r.
+        apply ev234_null with o (c_trace c); [exact Hsp|exact Hnull].
+      * apply (bf_cs c BF).
 Qed.
 
 (** ** steps that only move the program counter *)
 
 Lemma iB_silent c t sh' p' l :
   IInvB c -> In t L ->
-  (s_f (c_sh c) = true -> s_f sh' = true) -> (s_cur (c_sh c) = e_len e -> s_cur sh' = e_len e) ->
-  (s_f sh' = true -> s_f (c_sh c) = true \/ s_cur sh' = e_len e) ->
-  s_cur sh' <= s_c sh' ->
+  (s_f (c_sh c) = true -> s_f sh' = true) ->
   nt_ok (c_trace c) sh' t (set_pc (c_pool c t) p') ->
+  (forall q b g, p' = PPub q b g -> N.of_nat (length g) < q_n q -> s_f sh' = true) ->
   (forall hm o older, p' = PLen2 hm -> pend_call t (c_trace c) = Some (o, older) -> skip_returned older = false) ->
+  (fused e -> IInvBF c ->
+     (s_cur (c_sh c) = e_len e -> s_cur sh' = e_len e) /\
+     (s_f sh' = true -> s_f (c_sh c) = true \/ s_cur sh' = e_len e) /\ s_cur sh' <= s_c sh') ->
   IInvB (commit c t sh' (set_pc (c_pool c t) p') l []).
 Proof.
-  intros I Hin Sf Sc Hf' Hcs Hnt Hl2.
-  apply iB_commit; try assumption; cbn [app].
+  intros I Hin Sf Hnt Hpubf Hl2 HF.
+  apply iB_commit; [exact I|exact Hin|..]; cbn [app].
   - constructor.
-  - intros Hf. destruct (Hf' Hf) as [H|H]; [|left; exact H].
-    destruct (b_f c I H) as [H1|H1]; [left; auto|right; exact H1].
-  - intros He'. destruct (b_end c I He') as [H|H]; [left; auto|right; auto].
+  - exact Sf.
+  - intros He'. apply Sf. apply (b_endf c I He').
   - intros Hs. apply Sf. apply (b_skip c I Hs).
-  - apply (b_evs c I).
+  - exact Hnt.
+  - cbn [set_pc t_pc]. exact Hpubf.
+  - apply (b_evs5 c I).
+  - cbn [set_pc t_pc]. exact Hl2.
+  - intros Hfu BF. destruct (HF Hfu BF) as (Sc & Hf' & Hcs). split; [|split; [apply (bf_evs c BF)|exact Hcs]].
+    intros Hf. destruct (Hf' Hf) as [H|H]; [|left; exact H].
+    destruct (bf_f c BF H) as [H1|H1]; [left; auto|right; exact H1].
 Qed.
 
 Lemma nt_keep c t sh' p' :
   IInvB c ->
-  (s_f (c_sh c) = true -> s_f sh' = true) -> (s_cur (c_sh c) = e_len e -> s_cur sh' = e_len e) ->
+  (s_f (c_sh c) = true -> s_f sh' = true) ->
   got_of p' = [] \/ got_of p' = got_of (t_pc (c_pool c t)) ->
   (before_gate (t_pc (c_pool c t)) = true -> before_gate p' = true \/ s_f (c_sh c) = false) ->
   nt_ok (c_trace c) sh' t (set_pc (c_pool c t) p').
 Proof.
-  intros I Sf Sc Hg Hbg. pose proof (b_nt c I t) as H. unfold nt_ok in *.
+  intros I Sf Hg Hbg. pose proof (b_nt c I t) as H. unfold nt_ok in *.
   destruct (pend_call t (c_trace c)) as [[o older]|]; [|exact I0].
   intros Hs. destruct (H Hs) as (Hn1 & Hn2 & Hn3). cbn [set_pc t_pc t_acc].
   split; [|split; [destruct Hg as [Hg|Hg]; rewrite Hg; [reflexivity|exact Hn2]|exact Hn3]].
-  unfold NT in *. cbn [set_pc t_pc]. destruct Hn1 as [H1|[H1 H2]]; [left; auto|].
-  destruct (Hbg H2) as [H3|H3]; [right; split; auto|congruence].
+  unfold NT in *. cbn [set_pc t_pc]. destruct Hn1 as [H1 H2].
+  destruct (Hbg H2) as [H3|H3]; [split; auto|congruence].
 Qed.
 
 Lemma iB_res c t q :
@@ -251,9 +339,10 @@ Lemma iB_res c t q :
 Proof.
   intros A I Hin Hpc Hw. rewrite (istep_res e Hk c t q Hpc). rewrite wadd_nowrap by assumption.
   apply iB_silent; try assumption; cbn [with_c s_f s_cur s_c]; auto.
-  - pose proof (b_cs c I). lia.
   - apply nt_keep; try assumption; cbn [with_c s_f s_cur]; auto; rewrite Hpc; auto.
+  - intros q0 b g H. discriminate H.
   - intros hm o older H. discriminate H.
+  - intros Hfu BF. split; [auto|split; [auto|]]. pose proof (bf_cs c BF). lia.
 Qed.
 
 Lemma iB_chkf_go c t q b :
@@ -262,9 +351,10 @@ Lemma iB_chkf_go c t q b :
 Proof.
   intros A I Hin Hpc Hf.
   apply iB_silent; try assumption; auto.
-  - apply (b_cs c I).
   - apply nt_keep; try assumption; auto; rewrite Hpc; auto.
+  - intros q0 b0 g H. discriminate H.
   - intros hm o older H. discriminate H.
+  - intros Hfu BF. split; [auto|split; [auto|apply (bf_cs c BF)]].
 Qed.
 
 Lemma iB_ldy c t q b :
@@ -275,14 +365,16 @@ Proof.
   pose proof (p_tk _ _ _ _ _ (a_prot e L c A) t _ _ Tt) as (Hn & Hyb & Hbc).
   destruct (N.eqb_spec b (s_y (c_sh c))) as [Eb|Nb].
   - apply iB_silent; try assumption; auto.
-    + apply (b_cs c I).
     + apply nt_keep; try assumption; auto; rewrite Hpc; cbn [before_gate]; discriminate.
+    + intros q0 b0 g H. discriminate H.
     + intros hm o older H. discriminate H.
+    + intros Hfu BF. split; [auto|split; [auto|apply (bf_cs c BF)]].
   - destruct (N.ltb_spec b (s_y (c_sh c))) as [Hlt|Hge]; [lia|].
     apply iB_silent; try assumption; auto.
-    + apply (b_cs c I).
     + apply nt_keep; try assumption; auto; rewrite Hpc; cbn [before_gate]; discriminate.
+    + intros q0 b0 g H. discriminate H.
     + intros hm o older H. discriminate H.
+    + intros Hfu BF. split; [auto|split; [auto|apply (bf_cs c BF)]].
 Qed.
 
 Lemma iB_src c t q b g :
@@ -293,41 +385,47 @@ Proof.
   assert (Tt : ticket (pcs_of c t) = Some (b, pub_incr q)) by (unfold pcs_of; rewrite Hpc; reflexivity).
   assert (Ct : in_crit (pcs_of c t) = true) by (unfold pcs_of; rewrite Hpc; reflexivity).
   pose proof (a_prot e L c A) as P.
-  pose proof (p_got _ _ _ _ _ P t _ _ Ct Tt) as [_ Hcur]. unfold pcs_of in Hcur. rewrite Hpc in Hcur. cbn [got_of] in Hcur.
   pose proof (p_tk _ _ _ _ _ P t _ _ Tt) as (Hn & Hyb & Hbc). rewrite (pub_incr_n q Hq) in Hbc.
   pose proof (p_cur _ _ _ _ _ P) as Hcl.
-  assert (Hsame : forall x calls l, got_of x = g \/ got_of x = [] -> (forall hm, x <> PLen2 hm) ->
+  assert (Hsame : forall x calls l, got_of x = g \/ got_of x = [] -> (forall hm, x <> PLen2 hm) -> (forall q0 b0 g0, x <> PPub q0 b0 g0) ->
             IInvB (commit c t (with_src (c_sh c) (s_cur (c_sh c)) calls) (set_pc (c_pool c t) x) l [])).
-  { intros x calls l Hg Hx. apply iB_silent; try assumption; cbn [with_src s_f s_cur s_c]; auto.
-    - apply (b_cs c I).
+  { intros x calls l Hg Hx Hxp. apply iB_silent; try assumption; cbn [with_src s_f s_cur s_c]; auto.
     - apply nt_keep; try assumption; cbn [with_src s_f s_cur]; auto.
       + rewrite Hpc. cbn [got_of]. destruct Hg as [Hg|Hg]; auto.
       + rewrite Hpc. cbn [before_gate]. discriminate.
-    - intros hm o older H. contradiction (Hx hm). }
+    - intros q0 b0 g0 H. contradiction (Hxp q0 b0 g0).
+    - intros hm o older H. contradiction (Hx hm).
+    - intros Hfu BF. split; [auto|split; [auto|apply (bf_cs c BF)]]. }
   unfold step. rewrite Hpc.
   destruct (crashes_now e (c_sh c)).
-  - apply Hsame; [left; reflexivity|discriminate].
-  - unfold src_next. destruct (N.ltb_spec (s_cur (c_sh c)) (e_len e)) as [Hsl|Hsl].
-    + assert (Hc : s_cur (c_sh c) = b + N.of_nat (length g)) by (destruct Hcur as [H|[_ H]]; [exact H|lia]).
-      assert (Hgo : forall x, (forall hm, x <> PLen2 hm) ->
+  - apply Hsame; [left; reflexivity|discriminate|discriminate].
+  - destruct (src_next_cases e (c_sh c)) as [[Es Hsl]|[Es Hsl]]; rewrite Es.
+    + assert (Hgo : forall x, (forall hm, x <> PLen2 hm) -> (forall q0 b0 g0, x = PPub q0 b0 g0 -> N.of_nat (length g0) = q_n q0) ->
                 IInvB (commit c t (with_src (c_sh c) (s_cur (c_sh c) + 1) (s_calls (c_sh c) + 1)) (set_pc (c_pool c t) x)
                               (LSrc t (Some (s_cur (c_sh c)))) [])).
-      { intros x Hx. apply iB_silent; try assumption; cbn [with_src s_f s_cur s_c]; auto.
-        - intros H. lia.
-        - lia.
+      { intros x Hx Hxp. apply iB_silent; try assumption; cbn [with_src s_f s_cur s_c]; auto.
         - pose proof (b_nt c I t) as H. unfold nt_ok in *.
           destruct (pend_call t (c_trace c)) as [[o older]|]; [|exact I0].
           intros Hs. destruct (H Hs) as (Hn1 & _ & _). unfold NT in Hn1. rewrite Hpc in Hn1. cbn [before_gate] in Hn1.
-          destruct Hn1 as [H1|[_ H1]]; [lia|discriminate].
-        - intros hm o older H. contradiction (Hx hm). }
-      destruct (q_mode q).
-      * apply Hgo. discriminate.
-      * destruct (N.of_nat (length (s_cur (c_sh c) :: g)) =? q_n q); apply Hgo; discriminate.
-      * destruct (N.of_nat (length (s_cur (c_sh c) :: g)) =? q_n q); apply Hgo; discriminate.
+          destruct Hn1 as [_ H1]. discriminate.
+        - intros q0 b0 g0 H Hl. rewrite (Hxp _ _ _ H) in Hl. lia.
+        - intros hm o older H. contradiction (Hx hm).
+        - intros Hfu BF. split; [intros H; lia|split; [auto|]].
+          pose proof (p_got _ _ _ _ _ (a_protF e L c A Hfu) t _ _ Ct Tt) as [_ Hcur]. unfold pcs_of in Hcur. rewrite Hpc in Hcur. cbn [got_of] in Hcur.
+          assert (Hc : s_cur (c_sh c) = b + N.of_nat (length g)) by (destruct Hcur as [H|[_ H]]; [exact H|lia]).
+          lia. }
+      destruct (q_mode q) eqn:M.
+      * apply Hgo; [discriminate|]. intros q0 b0 g0 H. injection H as <- _ <-.
+        destruct Hq as (_ & _ & H1). rewrite (H1 _ M) in *.
+        destruct g; [reflexivity|cbn [length] in Hlt; rewrite Nat2N.inj_succ in Hlt; lia].
+      * destruct (N.eqb_spec (N.of_nat (length (s_cur (c_sh c) :: g))) (q_n q)) as [El|El]; apply Hgo; try discriminate.
+        intros q0 b0 g0 H. injection H as <- _ <-. exact El.
+      * destruct (N.eqb_spec (N.of_nat (length (s_cur (c_sh c) :: g))) (q_n q)) as [El|El]; apply Hgo; try discriminate.
+        intros q0 b0 g0 H. injection H as <- _ <-. exact El.
     + destruct (q_mode q) eqn:M.
-      * apply Hsame; [right; reflexivity|discriminate].
-      * apply Hsame; [left; reflexivity|discriminate].
-      * apply Hsame; [left; reflexivity|discriminate].
+      * apply Hsame; [right; reflexivity|discriminate|discriminate].
+      * apply Hsame; [left; reflexivity|discriminate|discriminate].
+      * apply Hsame; [left; reflexivity|discriminate|discriminate].
 Qed.
 
 Lemma iB_setf_go c t q b g :
@@ -335,11 +433,11 @@ Lemma iB_setf_go c t q b g :
   IInvB (commit c t (with_f (c_sh c) true) (set_pc (c_pool c t) (PPub q b g)) (LAtom t SF AStore 1 0 (o_setf q)) []).
 Proof.
   intros A I Hin Hpc.
-  pose proof (p_setf _ _ _ _ _ (a_prot e L c A) t q b g ltac:(unfold pcs_of; exact Hpc)) as Hex.
   apply iB_silent; try assumption; cbn [with_f s_f s_cur s_c]; auto.
-  - apply (b_cs c I).
   - apply nt_keep; try assumption; cbn [with_f s_f s_cur]; auto; rewrite Hpc; cbn [before_gate got_of]; auto; discriminate.
   - intros hm o older H. discriminate H.
+  - intros Hfu BF. split; [auto|split; [|apply (bf_cs c BF)]]. intros _. right.
+    exact (p_setf _ _ _ _ _ (a_protF e L c A Hfu) t q b g ltac:(unfold pcs_of; exact Hpc)).
 Qed.
 
 (** ** a pull reports the end *)
@@ -378,51 +476,67 @@ Qed.
 Lemma iB_finish_end c t sh' q l :
   IInvA e L c -> IInvB c -> In t L ->
   req_of (t_pc (c_pool c t)) = Some q ->
-  (s_f (c_sh c) = true -> s_f sh' = true) -> (s_cur (c_sh c) = e_len e -> s_cur sh' = e_len e) ->
-  (s_f sh' = true -> s_f (c_sh c) = true \/ s_cur sh' = e_len e) ->
-  (s_f sh' = true \/ s_cur sh' = e_len e) ->
-  s_cur sh' <= s_c sh' ->
+  (s_f (c_sh c) = true -> s_f sh' = true) ->
+  s_f sh' = true ->
+  (fused e -> IInvBF c -> (s_cur (c_sh c) = e_len e -> s_cur sh' = e_len e) /\
+                          (s_f (c_sh c) = true \/ s_cur sh' = e_len e) /\ s_cur sh' <= s_c sh') ->
   IInvB (finish e c t sh' (c_pool c t) l q (Ok PREnd)).
 Proof.
-  intros A I Hin Hreq Sf Sc Hf' Hstop Hcs.
+  intros A I Hin Hreq Sf Hstop HF.
   destruct (pull_ctx c t q A Hreq) as (o & older & Hpend & Hres & Hsplit & Hsuf & Hns).
   destruct (ipc_req e L c t q A Hreq) as [Hq Hacc].
-  pose proof (a_acc e L c A t) as Ha. unfold iacc_ok in Ha. rewrite Hpend in Ha. destruct Ha as (Ha1 & Ha2 & Ha3 & Ha4).
+  pose proof (a_shape e L c A t) as Hsh. unfold ishape_ok in Hsh. rewrite Hpend in Hsh.
   pose proof (b_nt c I t) as Hnt. unfold nt_ok in Hnt. rewrite Hpend in Hnt.
-  assert (Hfm : s_f sh' = true -> s_cur sh' = e_len e \/ has_skip (c_trace c) = true \/ has_panic (c_trace c) = true).
-  { intros Hf. destruct (Hf' Hf) as [H|H]; [|left; exact H]. destruct (b_f c I H) as [H1|H1]; [left; auto|right; exact H1]. }
+  assert (Hfm : fused e -> IInvBF c -> s_f sh' = true -> s_cur sh' = e_len e \/ has_skip (c_trace c) = true \/ has_panic (c_trace c) = true).
+  { intros Hfu BF Hf. destruct (HF Hfu BF) as (Sc & [H|H] & _); [|left; exact H].
+    destruct (bf_f c BF H) as [H1|H1]; [left; auto|right; exact H1]. }
   unfold finish, deliver. destruct (q_ctx q) as [|lk crash] eqn:Ctx.
   - destruct (top_ops_iter _ _ _ Hres Ctx) as (Hnull & _).
-    cbn [ret_ev]. apply iB_commit; try assumption.
+    cbn [ret_ev]. apply iB_commit; [exact I|exact Hin|..].
     + repeat constructor.
+    + exact Sf.
     + intros _. exact Hstop.
-    + cbn [app]. rewrite (skip_returned_ret_other _ _ _ _ _ _ Hsplit Hns). intros H. apply Sf. apply (b_skip c I H).
+    + intros _. exact Hstop.
     + unfold nt_ok. cbn [app]. rewrite pend_call_self_ret. exact I0.
-    + cbn [app]. rewrite all_rets_ret, (b_evs c I), andb_true_r. apply ev6_null with o older; assumption.
+    + cbn [set_pc t_pc]. intros q0 b0 g0 H. discriminate H.
+    + cbn [app]. rewrite all_rets_ret, (b_evs5 c I), andb_true_r. apply ev5_null with o older; assumption.
     + cbn [set_pc t_pc]. intros hm o' older' H. discriminate H.
+    + intros Hfu BF. split; [|split].
+      * intros Hf. apply (f_mono_app sh' (c_trace c) [_]); [apply (Hfm Hfu BF)|exact Hf].
+      * cbn [app]. rewrite all_rets_ret, (bf_evs c BF), andb_true_r. apply ev234_null with o older; assumption.
+      * apply (HF Hfu BF).
   - destruct (loop_ops_iter e Hk _ _ _ _ _ Hres Ctx) as (cc & -> & Hcc).
-    cbn [ret_ev]. apply iB_commit; try assumption.
+    assert (Hcovr : res_cover e (RLoop (rev (t_acc (c_pool c t)))) = rev (acc_iv e (c_pool c t))).
+    { cbn [res_cover res_taken]. unfold acc_iv. apply map_rev. }
+    assert (Hnil : stopped2 older = true -> res_cover e (RLoop (rev (t_acc (c_pool c t)))) = []).
+    { intros H. destruct (Hnt H) as (_ & _ & H3). rewrite H3. reflexivity. }
+    cbn [ret_ev]. apply iB_commit; [exact I|exact Hin|..].
     + repeat constructor.
+    + exact Sf.
     + intros _. exact Hstop.
-    + cbn [app]. rewrite (skip_returned_ret_other _ _ _ _ _ _ Hsplit Hns). intros H. apply Sf. apply (b_skip c I H).
+    + intros _. exact Hstop.
     + unfold nt_ok. cbn [app]. rewrite pend_call_self_ret. exact I0.
-    + cbn [app]. rewrite all_rets_ret, (b_evs c I), andb_true_r.
-      assert (Hcovr : res_cover e (RLoop (rev (t_acc (c_pool c t)))) = rev (acc_iv e (c_pool c t))).
-      { cbn [res_cover res_taken]. unfold acc_iv. apply map_rev. }
-      assert (Hnil : stopped2 older = true -> res_cover e (RLoop (rev (t_acc (c_pool c t)))) = []).
-      { intros H. destruct (Hnt H) as (_ & _ & H3). rewrite H3. reflexivity. }
-      apply ev6_intro with (Loop lk cc crash) older; try assumption.
-      * cbn [res_runs]. rewrite forallb_rev. assumption.
-      * reflexivity.
-      * rewrite Hcovr. assumption.
-      * rewrite Hcovr, all_above_rev. rewrite (cov_of_pend _ _ _ _ _ Hpend).
-        eapply all_above_mono; [apply cov_of_maxhi|assumption].
-      * rewrite Hcovr, all_above_rev. assumption.
+    + cbn [t_pc]. intros q0 b0 g0 H. discriminate H.
+    + cbn [app]. rewrite all_rets_ret, (b_evs5 c I), andb_true_r.
+      apply ev5_intro with (Loop lk cc crash) older; try assumption.
       * intros H. unfold delivers_nothing. rewrite Hnil by (unfold stopped2; rewrite H; reflexivity). reflexivity.
       * intros H. unfold delivers_nothing. rewrite Hnil by (unfold stopped2; rewrite H; now rewrite orb_true_r). reflexivity.
       * destruct (N.eqb_spec cc 0); [contradiction|]. cbn [loop_shape_ok]. rewrite forallb_rev.
-        apply (Ha2 lk cc crash eq_refl).
+        apply (Hsh lk cc crash eq_refl).
     + cbn [t_pc]. intros hm o' older' H. discriminate H.
+    + intros Hfu BF.
+      pose proof (a_acc e L c A Hfu t) as Ha. unfold iacc_ok in Ha. rewrite Hpend in Ha. destruct Ha as (Ha1 & Ha2 & Ha3 & Ha4).
+      split; [|split].
+      * intros Hf. apply (f_mono_app sh' (c_trace c) [_]); [apply (Hfm Hfu BF)|exact Hf].
+      * cbn [app]. rewrite all_rets_ret, (bf_evs c BF), andb_true_r.
+        apply ev234_intro with (Loop lk cc crash) older; try assumption.
+        -- cbn [res_runs]. rewrite forallb_rev. assumption.
+        -- reflexivity.
+        -- rewrite Hcovr. assumption.
+        -- rewrite Hcovr, all_above_rev. rewrite (cov_of_pend _ _ _ _ _ Hpend).
+           eapply all_above_mono; [apply cov_of_maxhi|assumption].
+        -- rewrite Hcovr, all_above_rev. assumption.
+      * apply (HF Hfu BF).
 Qed.
 
 Lemma iB_chkf c t q b :
@@ -432,7 +546,7 @@ Proof.
   destruct (s_f (c_sh c)) eqn:Ef.
   - apply iB_finish_end; try assumption; auto.
     + rewrite Hpc. reflexivity.
-    + apply (b_cs c I).
+    + intros Hfu BF. split; [auto|split; [left; exact Ef|apply (bf_cs c BF)]].
   - rewrite <- Ef. apply iB_chkf_go; assumption.
 Qed.
 
@@ -440,108 +554,150 @@ Lemma iB_setf c t q b g :
   IInvA e L c -> IInvB c -> In t L -> t_pc (c_pool c t) = PSetF q b g -> IInvB (step e c t).
 Proof.
   intros A I Hin Hpc. rewrite (istep_setf e c t q b g Hpc).
-  pose proof (p_setf _ _ _ _ _ (a_prot e L c A) t q b g ltac:(unfold pcs_of; exact Hpc)) as Hex.
   destruct (q_mode q) eqn:M.
   - apply iB_finish_end; try assumption; cbn [with_f s_f s_cur s_c]; auto.
     + rewrite Hpc. reflexivity.
-    + apply (b_cs c I).
+    + intros Hfu BF. split; [auto|split; [|apply (bf_cs c BF)]]. right.
+      exact (p_setf _ _ _ _ _ (a_protF e L c A Hfu) t q b g ltac:(unfold pcs_of; exact Hpc)).
   - apply iB_setf_go; assumption.
   - apply iB_setf_go; assumption.
 Qed.
 
 (** ** a pull returns elements *)
 
-Lemma iB_finish_got c t q b g cnt :
-  IInvA e L c -> IInvB c -> In t L -> t_pc (c_pool c t) = PPub q b g ->
-  b = s_y (c_sh c) -> cnt = N.of_nat (length g) -> 1 <= cnt -> cnt <= q_n q -> b + cnt = s_cur (c_sh c) -> b < e_len e ->
-  (cnt < q_n q -> b + cnt = e_len e) -> (forall v, q_mode q = MSingle v -> cnt = 1) ->
-  IInvB (finish e c t (with_y (c_sh c) (b + q_n q)) (c_pool c t) (LAtom t SY AAdd (q_n q) b (o_pub q)) q
-                (Ok (PRGot b [mk_run (Some b) (val_of e b) cnt] cnt))).
+Lemma iB_finish_got c t q b g l :
+  IInvA e L c -> IInvB c -> In t L -> t_pc (c_pool c t) = PPub q b g -> g <> [] ->
+  b = s_y (c_sh c) ->
+  IInvB (finish e c t (with_y (c_sh c) (b + q_n q)) (c_pool c t) l q
+                (Ok (PRGot b (runs_of b (rev g)) (N.of_nat (length g))))).
 Proof.
-  intros A I Hin Hpc Hb Hcnt Hk1 Hcn Hbc Hbl Hsh Hone.
+  intros A I Hin Hpc Hgne Hb.
   assert (Hreq : req_of (t_pc (c_pool c t)) = Some q) by (rewrite Hpc; reflexivity).
   destruct (pull_ctx c t q A Hreq) as (o & older & Hpend & Hres & Hsplit & Hsuf & Hns).
   destruct (ipc_req e L c t q A Hreq) as [Hq Hacc].
-  pose proof (a_acc e L c A t) as Ha. unfold iacc_ok in Ha. rewrite Hpend in Ha. destruct Ha as (Ha1 & Ha2 & Ha3 & Ha4).
+  destruct (a_wf e L c A t) as (Hok & Hops & Hbuf). unfold ipc_ok in Hok. rewrite Hpc in Hok. destruct Hok as (_ & _ & Hgn & Hg1).
+  pose proof (a_shape e L c A t) as Hsh. unfold ishape_ok in Hsh. rewrite Hpend in Hsh.
   pose proof (b_nt c I t) as Hnt. unfold nt_ok in Hnt. rewrite Hpend in Hnt.
-  assert (Hgne : g <> []) by (intros ->; cbn [length] in Hcnt; lia).
   pose proof (p_cur _ _ _ _ _ (a_prot e L c A)) as Hcl.
   assert (Hnst : stopped2 older = false).
   { destruct (stopped2 older); [|reflexivity]. destruct (Hnt eq_refl) as (_ & H2 & _). rewrite Hpc in H2. cbn [got_of] in H2. contradiction. }
   assert (Hns_e : end_reported older = false) by (unfold stopped2 in Hnst; destruct (end_reported older); [discriminate|reflexivity]).
   assert (Hns_s : skip_returned older = false) by (unfold stopped2 in Hnst; destruct (skip_returned older); [rewrite orb_true_r in Hnst; discriminate|reflexivity]).
-  assert (Hheld : held e (c_pool c t) = acc_iv e (c_pool c t) ++ [(b, cnt)]) by (unfold held; rewrite Hpc, Hcnt; reflexivity).
-  destruct (top_below e L NDL c t b cnt A Hin Hheld Hbc Hk1) as [Hcb Hab].
-  assert (Hcof : iv_maxhi (cov_of e t (c_trace c)) <= b) by (pose proof (cov_of_maxhi e t (c_trace c)); lia).
-  assert (Hcold : iv_maxhi (cov e older) <= b) by (pose proof (cov_suffix_maxhi e _ _ Hsuf); lia).
-  assert (Hfm : s_f (c_sh c) = true -> s_cur (c_sh c) = e_len e \/ has_skip (c_trace c) = true \/ has_panic (c_trace c) = true) by apply (b_f c I).
+  set (rs := runs_of b (rev g)). set (cnt := N.of_nat (length g)).
+  assert (Hk1 : 1 <= cnt) by (unfold cnt; destruct g; [contradiction Hgne; reflexivity|cbn [length]; lia]).
+  assert (Hrsn : rs <> []).
+  { unfold rs. destruct (rev g) as [|v vs] eqn:Er; [|apply runs_of_nonnil].
+    exfalso. apply Hgne. rewrite <- (rev_involutive g), Er. reflexivity. }
+  assert (Hidx : forall r, In r rs -> r_idx r <> None) by (intros r; apply runs_of_idx).
+  assert (Hheld : held e (c_pool c t) = acc_iv e (c_pool c t) ++ [(b, cnt)]) by (unfold held; rewrite Hpc; reflexivity).
+  (* the facts of the fused case *)
+  assert (HFu : fused e -> rs = [mk_run (Some b) (val_of e b) cnt] /\ b + cnt = s_cur (c_sh c) /\ b < e_len e /\
+                 (cnt < q_n q -> b + cnt = e_len e) /\
+                 iv_maxhi (cov e (c_trace c)) <= b /\ iv_maxhi (acc_iv e (c_pool c t)) <= b).
+  { intros Hfu. destruct (pub_fused e Hk L c t q b g A Hfu Hpc Hgne) as (H1 & H2 & H3 & H4).
+    fold rs cnt in H1, H2, H4. split; [exact H1|]. split; [lia|]. split; [exact H3|]. split; [exact H4|].
+    apply (top_below e L NDL c t b cnt A Hfu Hin Hheld); [lia|exact Hk1]. }
   unfold finish, deliver. destruct (q_ctx q) as [|lk crash] eqn:Ctx.
   - (* directly *)
     specialize (Hacc eq_refl).
     destruct (top_ops_iter _ _ _ Hres Ctx) as (_ & Hnl & Hnh & Hnt' & _ & _ & Hop).
-    destruct (deliver_top_iter e Hk (c_pool c t) q b cnt Hbl Hk1 Hq Hone Hcn ltac:(lia) Hsh)
-      as (ts' & r & d & -> & Hp' & Ha' & Ht' & Hb' & Hbc' & Hne & Hnp & Hla & Hidx & Hchk & took & Htk & Hcov).
-    cbn [ret_ev]. apply iB_commit; try assumption; cbn [with_y s_f s_cur s_c]; auto.
+    destruct (deliver_top_gen e Hk (c_pool c t) q b rs cnt Hrsn) as (ts' & r & d & Ed & Hp' & Ha' & Ht' & Hb' & Hbc' & Hne & Hnp & Hla).
+    rewrite Ed. cbn [ret_ev]. apply iB_commit; [exact I|exact Hin|..]; cbn [with_y s_f s_cur s_c].
     + repeat constructor.
-    + intros Hf. destruct (Hfm Hf) as [H|[H|H]]; [left; exact H|right; left; exact H|right; right; cbn [app has_panic]; rewrite H; apply orb_true_r].
-    + cbn [app]. rewrite (end_reported_ret _ _ _ _ _ _ Hsplit), Hne. cbn [andb orb]. apply (b_end c I).
+    + auto.
+    + cbn [app]. rewrite (end_reported_ret _ _ _ _ _ _ Hsplit), Hne. cbn [andb orb]. apply (b_endf c I).
     + cbn [app]. rewrite (skip_returned_ret_other _ _ _ _ _ _ Hsplit Hns). apply (b_skip c I).
     + unfold nt_ok. cbn [app]. rewrite pend_call_self_ret. exact I0.
-    + cbn [app]. rewrite all_rets_ret, (b_evs c I), andb_true_r.
-      apply ev6_intro with o older; try assumption.
-      * destruct o; try reflexivity.
-        -- destruct Hop as [Hn Hm]. rewrite <- Hn. rewrite (Hchk k (or_introl Hm)). apply orb_true_r.
-        -- destruct Hop as (bf & Hbf & Hn & Hm).
-           rewrite <- (buf_size_pend _ _ _ _ Hpend) by discriminate.
-           rewrite (a_buf e L c A t bf Hbf). rewrite <- Hn. apply (Hchk k (or_intror Hm)).
-      * rewrite Hcov. apply increasing_split. assumption.
-      * rewrite Hcov. apply all_above_split. lia.
-      * rewrite Hcov. apply all_above_split. lia.
+    + rewrite Hp'. intros q0 b0 g0 H. discriminate H.
+    + cbn [app]. rewrite all_rets_ret, (b_evs5 c I), andb_true_r.
+      apply ev5_intro with o older; try assumption.
       * rewrite Hns_e. discriminate.
       * rewrite Hns_s. discriminate.
-      * destruct o; try reflexivity. contradiction (Hnl l c0 crash); reflexivity.
-    + pose proof (b_cs c I). lia.
+      * destruct o; try reflexivity. contradiction (Hnl l0 c0 crash); reflexivity.
     + rewrite Hp'. intros hm o' older' H. discriminate H.
+    + intros Hfu BF. destruct (HFu Hfu) as (Hrs & Hbc & Hbl & Hshort & Hcb & Hab).
+      assert (Hcof : iv_maxhi (cov_of e t (c_trace c)) <= b) by (pose proof (cov_of_maxhi e t (c_trace c)); lia).
+      assert (Hcold : iv_maxhi (cov e older) <= b) by (pose proof (cov_suffix_maxhi e _ _ Hsuf); lia).
+      assert (Hone : forall v, q_mode q = MSingle v -> cnt = 1) by (intros v Mv; specialize (Hg1 v Mv); unfold cnt; rewrite Hg1; reflexivity).
+      destruct (deliver_top_iter e Hk (c_pool c t) q b cnt Hbl Hk1 Hq Hone Hgn ltac:(lia) Hshort)
+        as (ts2 & r2 & d2 & E2 & _ & _ & _ & _ & _ & _ & Hnp2 & _ & Hidx2 & Hchk & took & Htk & Hcov).
+      rewrite Hrs in Ed. rewrite Ed in E2. injection E2 as <- <- <-.
+      split; [|split].
+      * intros Hf. destruct (bf_f c BF Hf) as [H|[H|H]]; [left; exact H|right; left; exact H|right; right; cbn [app has_panic]; rewrite H; apply orb_true_r].
+      * cbn [app]. rewrite all_rets_ret, (bf_evs c BF), andb_true_r.
+        apply ev234_intro with o older; try assumption.
+        -- destruct o; try reflexivity.
+           ++ destruct Hop as [Hn Hm]. rewrite <- Hn. rewrite (Hchk k (or_introl Hm)). apply orb_true_r.
+           ++ destruct Hop as (bf & Hbf & Hn & Hm).
+              rewrite <- (buf_size_pend _ _ _ _ Hpend) by discriminate.
+              rewrite (a_buf e L c A t bf Hbf). rewrite <- Hn. apply (Hchk k (or_intror Hm)).
+        -- rewrite Hcov. apply increasing_split. assumption.
+        -- rewrite Hcov. apply all_above_split. lia.
+        -- rewrite Hcov. apply all_above_split. lia.
+      * pose proof (bf_cs c BF). lia.
   - (* inside a loop *)
     destruct (loop_ops_iter e Hk _ _ _ _ _ Hres Ctx) as (cc & -> & Hcc).
     unfold deliver_loop.
-    destruct (loop_invoke_cases e lk crash (total_cnt (t_acc (c_pool c t))) b cnt Hbl Hk1) as (inv & pan & -> & Hi1 & Hi2 & Hinv).
+    pose proof (loop_invoke_shape lk crash (total_cnt (t_acc (c_pool c t))) rs cnt Hidx) as Hi2g.
+    destruct (loop_invoke lk crash (total_cnt (t_acc (c_pool c t))) rs cnt) as [inv pan] eqn:Eli. cbn [fst] in Hi2g.
+    assert (HFl : fused e -> forallb (run_idx_ok e) inv = true /\
+              match pan with
+              | None => map (run_iv e) inv = [(b, cnt)]
+              | Some used => 1 <= used /\ used <= cnt /\ map (run_iv e) inv = [(b, used)]
+              end).
+    { intros Hfu. destruct (HFu Hfu) as (Hrs & _ & Hbl & _).
+      destruct (loop_invoke_cases e lk crash (total_cnt (t_acc (c_pool c t))) b cnt Hbl Hk1) as (inv2 & pan2 & E2 & Hi1 & _ & Hinv).
+      rewrite Hrs in Eli. rewrite Eli in E2. injection E2 as <- <-. split; assumption. }
     destruct pan as [used|].
-    + destruct Hinv as (Hu1 & Hu2 & Hinv).
-      assert (Hcovr : res_cover e (RPanic PkUser (rev (rev inv ++ t_acc (c_pool c t)))) = rev (acc_iv e (c_pool c t)) ++ [(b, used)]).
-      { cbn [res_cover res_taken]. rewrite rev_app_distr, rev_involutive, map_app, Hinv. unfold acc_iv. rewrite map_rev. reflexivity. }
-      cbn [ret_ev]. apply iB_commit; try assumption; cbn [with_y s_f s_cur s_c]; auto.
+    + cbn [ret_ev]. apply iB_commit; [exact I|exact Hin|..]; cbn [with_y s_f s_cur s_c].
       * repeat constructor.
-      * cbn [app]. rewrite (end_reported_ret _ _ _ _ _ _ Hsplit). cbn [is_end andb orb]. apply (b_end c I).
+      * auto.
+      * cbn [app]. rewrite (end_reported_ret _ _ _ _ _ _ Hsplit). cbn [is_end andb orb]. apply (b_endf c I).
       * cbn [app]. rewrite (skip_returned_ret_other _ _ _ _ _ _ Hsplit Hns). apply (b_skip c I).
       * unfold nt_ok. cbn [app]. rewrite pend_call_self_ret. exact I0.
-      * cbn [app]. rewrite all_rets_ret, (b_evs c I), andb_true_r.
-        apply ev6_intro with (Loop lk cc crash) older; try assumption.
-        -- cbn [res_runs]. rewrite forallb_rev, forallb_app, forallb_rev, Hi1, Ha1. reflexivity.
-        -- reflexivity.
-        -- rewrite Hcovr. apply increasing_snoc; [assumption|]. cbn [fst].
-           rewrite (iv_maxhi_perm _ _ (Permutation_sym (Permutation_rev _))). lia.
-        -- rewrite Hcovr, all_above_app, all_above_rev. rewrite (cov_of_pend _ _ _ _ _ Hpend).
-           apply andb_true_iff. split.
-           ++ eapply all_above_mono; [apply cov_of_maxhi|assumption].
-           ++ apply all_above_forall. intros a [<-|[]]. right. cbn [fst].
-              pose proof (cov_of_maxhi e t older). lia.
-        -- rewrite Hcovr, all_above_app, all_above_rev, Ha4. cbn [andb].
-           apply all_above_forall. intros a [<-|[]]. right. cbn [fst]. lia.
+      * cbn [t_pc]. intros q0 b0 g0 H. discriminate H.
+      * cbn [app]. rewrite all_rets_ret, (b_evs5 c I), andb_true_r.
+        apply ev5_intro with (Loop lk cc crash) older; try assumption.
         -- rewrite Hns_e. discriminate.
         -- rewrite Hns_s. discriminate.
         -- destruct (N.eqb_spec cc 0); [contradiction|].
            change (forallb (shape_ok lk) (rev (rev inv ++ t_acc (c_pool c t))) = true).
-           rewrite forallb_rev, forallb_app, forallb_rev, Hi2. cbn [andb]. apply (Ha2 lk cc crash eq_refl).
-      * pose proof (b_cs c I). lia.
+           rewrite forallb_rev, forallb_app, forallb_rev, Hi2g. cbn [andb]. apply (Hsh lk cc crash eq_refl).
       * cbn [t_pc]. intros hm o' older' H. discriminate H.
+      * intros Hfu BF. destruct (HFu Hfu) as (Hrs & Hbc & Hbl & Hshort & Hcb & Hab).
+        destruct (HFl Hfu) as (Hi1 & Hu1 & Hu2 & Hinv).
+        pose proof (a_acc e L c A Hfu t) as Ha. unfold iacc_ok in Ha. rewrite Hpend in Ha. destruct Ha as (Ha1 & Ha2 & Ha3 & Ha4).
+        assert (Hcof : iv_maxhi (cov_of e t (c_trace c)) <= b) by (pose proof (cov_of_maxhi e t (c_trace c)); lia).
+        assert (Hcold : iv_maxhi (cov e older) <= b) by (pose proof (cov_suffix_maxhi e _ _ Hsuf); lia).
+        assert (Hcovr : res_cover e (RPanic PkUser (rev (rev inv ++ t_acc (c_pool c t)))) = rev (acc_iv e (c_pool c t)) ++ [(b, used)]).
+        { cbn [res_cover res_taken]. rewrite rev_app_distr, rev_involutive, map_app, Hinv. unfold acc_iv. rewrite map_rev. reflexivity. }
+        split; [|split].
+        -- intros Hf. destruct (bf_f c BF Hf) as [H|[H|H]]; [left; exact H|right; left; exact H|right; right; reflexivity].
+        -- cbn [app]. rewrite all_rets_ret, (bf_evs c BF), andb_true_r.
+           apply ev234_intro with (Loop lk cc crash) older; try assumption.
+           ++ cbn [res_runs]. rewrite forallb_rev, forallb_app, forallb_rev, Hi1, Ha1. reflexivity.
+           ++ reflexivity.
+           ++ rewrite Hcovr. apply increasing_snoc; [assumption|]. cbn [fst].
+              rewrite (iv_maxhi_perm _ _ (Permutation_sym (Permutation_rev _))). lia.
+           ++ rewrite Hcovr, all_above_app, all_above_rev. rewrite (cov_of_pend _ _ _ _ _ Hpend).
+              apply andb_true_iff. split.
+              ** eapply all_above_mono; [apply cov_of_maxhi|assumption].
+              ** apply all_above_forall. intros a [<-|[]]. right. cbn [fst].
+                 pose proof (cov_of_maxhi e t older). lia.
+           ++ rewrite Hcovr, all_above_app, all_above_rev, Ha4. cbn [andb].
+              apply all_above_forall. intros a [<-|[]]. right. cbn [fst]. lia.
+        -- pose proof (bf_cs c BF). lia.
     + (* the loop goes on *)
-      cbn [ret_ev]. apply iB_commit; try assumption; cbn [with_y s_f s_cur s_c app]; auto.
-      all: first [ apply (b_f c I) | apply (b_end c I) | apply (b_skip c I) | apply (b_evs c I)
-                 | (pose proof (b_cs c I); lia)
-                 | (unfold nt_ok; rewrite Hpend, Hnst; discriminate)
-                 | (cbn [t_pc]; intros hm o' older' H; discriminate H)
-                 | constructor ].
+      cbn [ret_ev]. apply iB_commit; [exact I|exact Hin|..]; cbn [with_y s_f s_cur s_c app].
+      * constructor.
+      * auto.
+      * apply (b_endf c I).
+      * apply (b_skip c I).
+      * unfold nt_ok. rewrite Hpend, Hnst. discriminate.
+      * cbn [t_pc]. intros q0 b0 g0 H. discriminate H.
+      * apply (b_evs5 c I).
+      * cbn [t_pc]. intros hm o' older' H. discriminate H.
+      * intros Hfu BF. split; [apply (bf_f c BF)|split; [apply (bf_evs c BF)|pose proof (bf_cs c BF); lia]].
 Qed.
 
 Lemma iB_pub c t q b g :
@@ -549,11 +705,14 @@ Lemma iB_pub c t q b g :
   s_y (c_sh c) + pub_incr q < W -> IInvB (step e c t).
 Proof.
   intros A I Hin Hpc Hw.
-  destruct (pub_eq e Hk L c t q b g A Hpc Hw) as (Hb & Hq & [(Hg & Hex & ->)|(cnt & Hcnt & Hk1 & Hcn & Hbc & Hbl & Hsh & Hone & ->)]).
-  - apply iB_finish_end; try assumption; cbn [with_y s_f s_cur s_c]; auto.
+  destruct (pub_step e L c t q b g A Hpc Hw) as (Hb & Hq & ->).
+  destruct g as [|g0 g'].
+  - assert (Hf : s_f (c_sh c) = true).
+    { apply (b_pubf c I t q b [] Hpc). cbn [length]. destruct Hq. lia. }
+    apply iB_finish_end; try assumption; cbn [with_y s_f s_cur s_c]; auto.
     + rewrite Hpc. reflexivity.
-    + apply (b_cs c I).
-  - apply iB_finish_got with g; assumption.
+    + intros Hfu BF. split; [auto|split; [left; exact Hf|pose proof (bf_cs c BF); lia]].
+  - apply iB_finish_got; try assumption. discriminate.
 Qed.
 
 (** ** unwinding from a panic of the wrapped iterator *)
@@ -566,31 +725,41 @@ Proof.
   assert (Hreq : req_of (t_pc (c_pool c t)) = Some q) by (rewrite Hpc; reflexivity).
   destruct (pull_ctx c t q A Hreq) as (o & older & Hpend & Hres & Hsplit & Hsuf & Hns).
   destruct (ipc_req e L c t q A Hreq) as [Hq Hacc].
-  pose proof (a_acc e L c A t) as Ha. unfold iacc_ok in Ha. rewrite Hpend in Ha. destruct Ha as (Ha1 & Ha2 & Ha3 & Ha4).
+  pose proof (a_shape e L c A t) as Hsh. unfold ishape_ok in Hsh. rewrite Hpend in Hsh.
   pose proof (b_nt c I t) as Hnt. unfold nt_ok in Hnt. rewrite Hpend in Hnt.
-  apply iB_commit; try assumption; cbn [with_f s_f s_cur s_c]; auto.
+  assert (Hcovr : res_cover e (RPanic PkSource (rev (t_acc (c_pool c t)))) = rev (acc_iv e (c_pool c t))).
+  { cbn [res_cover res_taken]. unfold acc_iv. apply map_rev. }
+  assert (Hnil : stopped2 older = true -> res_cover e (RPanic PkSource (rev (t_acc (c_pool c t)))) = []).
+  { intros H. destruct (Hnt H) as (_ & _ & H3). rewrite H3. reflexivity. }
+  apply iB_commit; [exact I|exact Hin|..]; cbn [with_f s_f s_cur s_c].
   - repeat constructor.
+  - auto.
+  - auto.
+  - auto.
   - unfold nt_ok. cbn [app]. rewrite pend_call_self_ret. exact I0.
-  - cbn [app]. rewrite all_rets_ret, (b_evs c I), andb_true_r.
-    assert (Hcovr : res_cover e (RPanic PkSource (rev (t_acc (c_pool c t)))) = rev (acc_iv e (c_pool c t))).
-    { cbn [res_cover res_taken]. unfold acc_iv. apply map_rev. }
-    assert (Hnil : stopped2 older = true -> res_cover e (RPanic PkSource (rev (t_acc (c_pool c t)))) = []).
-    { intros H. destruct (Hnt H) as (_ & _ & H3). rewrite H3. reflexivity. }
-    apply ev6_intro with o older; try assumption.
-    + cbn [res_runs]. rewrite forallb_rev. assumption.
-    + destruct o; try reflexivity; cbn [chunk_ok]; rewrite ?orb_true_r; try reflexivity. destruct (buf_size t older); reflexivity.
-    + rewrite Hcovr. assumption.
-    + rewrite Hcovr, all_above_rev. rewrite (cov_of_pend _ _ _ _ _ Hpend).
-      eapply all_above_mono; [apply cov_of_maxhi|assumption].
-    + rewrite Hcovr, all_above_rev. assumption.
+  - auto.
+  - cbn [app]. rewrite all_rets_ret, (b_evs5 c I), andb_true_r.
+    apply ev5_intro with o older; try assumption.
     + intros H. unfold delivers_nothing. rewrite Hnil by (unfold stopped2; rewrite H; reflexivity).
       cbn [is_end is_panic orb iv_total N.eqb no_positive andb]. destruct (can_end o); reflexivity.
     + intros H. unfold delivers_nothing. rewrite Hnil by (unfold stopped2; rewrite H; now rewrite orb_true_r).
       cbn [is_end is_panic orb iv_total N.eqb andb]. destruct (can_end o); destruct o; try reflexivity; discriminate Hres.
     + destruct o; try reflexivity. unfold call_res in Hres. destruct (N.eqb_spec c0 0); [discriminate Hres|].
-      change (forallb (shape_ok l0) (rev (t_acc (c_pool c t))) = true). rewrite forallb_rev. apply (Ha2 l0 c0 crash eq_refl).
-  - apply (b_cs c I).
+      change (forallb (shape_ok l0) (rev (t_acc (c_pool c t))) = true). rewrite forallb_rev. apply (Hsh l0 c0 crash eq_refl).
   - rewrite Hp'. intros hm o' older' H. discriminate H.
+  - intros Hfu BF.
+    pose proof (a_acc e L c A Hfu t) as Ha. unfold iacc_ok in Ha. rewrite Hpend in Ha. destruct Ha as (Ha1 & Ha2 & Ha3 & Ha4).
+    split; [|split].
+    + intros _. right. right. reflexivity.
+    + cbn [app]. rewrite all_rets_ret, (bf_evs c BF), andb_true_r.
+      apply ev234_intro with o older; try assumption.
+      * cbn [res_runs]. rewrite forallb_rev. assumption.
+      * destruct o; try reflexivity; cbn [chunk_ok]; rewrite ?orb_true_r; try reflexivity. destruct (buf_size t older); reflexivity.
+      * rewrite Hcovr. assumption.
+      * rewrite Hcovr, all_above_rev. rewrite (cov_of_pend _ _ _ _ _ Hpend).
+        eapply all_above_mono; [apply cov_of_maxhi|assumption].
+      * rewrite Hcovr, all_above_rev. assumption.
+    + apply (bf_cs c BF).
 Qed.
 
 Lemma iB_unw c t q b g :
@@ -640,61 +809,68 @@ Proof.
   assert (Hni : is_idle (c_pool c t) = false) by (unfold is_idle; rewrite Hpc; reflexivity).
   destruct (call_ctx c t A Hni) as (o & older & Hpend & Hres & Hsplit & Hsuf). rewrite Hpc in Hres. cbn [entry_of req_of] in Hres.
   apply call_res_skip_iter in Hres. subst o.
-  apply iB_commit; try assumption; cbn [with_f s_f s_cur s_c]; auto.
+  apply iB_commit; [exact I|exact Hin|..]; cbn [with_f s_f s_cur s_c].
   - repeat constructor.
-  - intros _. right. left. cbn [app has_skip]. apply (has_skip_pend _ _ _ Hpend).
+  - auto.
+  - auto.
+  - auto.
   - unfold nt_ok. cbn [app]. rewrite pend_call_self_ret. exact I0.
-  - cbn [app]. rewrite all_rets_ret, (b_evs c I), andb_true_r. apply ev6_null with Skip older; [assumption|reflexivity].
-  - apply (b_cs c I).
+  - auto.
+  - cbn [app]. rewrite all_rets_ret, (b_evs5 c I), andb_true_r. apply ev5_null with Skip older; [assumption|reflexivity].
   - cbn [set_pc t_pc]. intros hm o' older' H. discriminate H.
+  - intros Hfu BF. split; [|split].
+    + intros _. right. left. cbn [app has_skip]. apply (has_skip_pend _ _ _ Hpend).
+    + cbn [app]. rewrite all_rets_ret, (bf_evs c BF), andb_true_r. apply ev234_null with Skip older; [assumption|reflexivity].
+    + apply (bf_cs c BF).
 Qed.
 
-(** a length answer [a] (zero, or unknown) returned by a query *)
+(** a length answer [a] (zero, or unknown, or the length computed from the reserved counter by a query
+    that was called before the iteration was stopped) returned by a query *)
 Lemma iB_len_ret c t hm (a : option N) l :
   IInvA e L c -> IInvB c -> In t L ->
   is_idle (c_pool c t) = false -> entry_of (t_pc (c_pool c t)) = PLen hm ->
-  (forall n, a = Some n -> n = 0 \/ ((forall o older, pend_call t (c_trace c) = Some (o, older) ->
-                                         skip_returned older = false /\ (end_reported older = true -> s_cur (c_sh c) = e_len e)) /\
-                                      (s_cur (c_sh c) = e_len e -> n = 0))) ->
+  (forall n, a = Some n -> n = 0 \/ (forall o older, pend_call t (c_trace c) = Some (o, older) -> stopped2 older = false)) ->
   (a = None -> s_f (c_sh c) = false) ->
   IInvB (commit c t (c_sh c) (set_pc (c_pool c t) PIdle) l [ERet t (len_res hm a) []]).
 Proof.
   intros A I Hin Hni Hent Hsome Hnone.
   destruct (call_ctx c t A Hni) as (o & older & Hpend & Hres & Hsplit & Hsuf). rewrite Hent in Hres.
   assert (Hos : o <> Skip) by (intros ->; discriminate Hres).
-  apply iB_commit; try assumption; auto.
+  assert (Hcov0 : res_cover e (len_res hm a) = []) by (destruct hm; reflexivity).
+  assert (Hruns0 : res_runs (len_res hm a) = []) by (destruct hm; reflexivity).
+  assert (Hstop : stopped2 older = true -> s_f (c_sh c) = true) by (apply stop_state; assumption).
+  assert (Hzero : stopped2 older = true -> a = Some 0).
+  { intros Hs. destruct a as [n|]; [|rewrite (Hnone eq_refl) in Hstop; specialize (Hstop Hs); discriminate].
+    destruct (Hsome n eq_refl) as [->|Hno]; [reflexivity|]. rewrite (Hno _ _ Hpend) in Hs. discriminate. }
+  apply iB_commit; [exact I|exact Hin|..].
   - repeat constructor.
-  - cbn [app]. intros Hf. destruct (b_f c I Hf) as [H|[H|H]]; [left; exact H|right; left; exact H|right; right].
-    cbn [has_panic]. rewrite H. apply orb_true_r.
+  - auto.
   - cbn [app]. rewrite (end_reported_ret _ _ _ _ _ _ Hsplit).
-    assert (is_end (len_res hm a) = false) as -> by (destruct hm, a as [[|]|]; reflexivity). cbn [andb orb]. apply (b_end c I).
+    assert (is_end (len_res hm a) = false) as -> by (destruct hm, a as [[|]|]; reflexivity). cbn [andb orb]. apply (b_endf c I).
   - cbn [app]. rewrite (skip_returned_ret_other _ _ _ _ _ _ Hsplit Hos). apply (b_skip c I).
   - unfold nt_ok. cbn [app]. rewrite pend_call_self_ret. exact I0.
-  - cbn [app]. rewrite all_rets_ret, (b_evs c I), andb_true_r.
-    assert (Hcov0 : res_cover e (len_res hm a) = []) by (destruct hm; reflexivity).
-    assert (Hruns0 : res_runs (len_res hm a) = []) by (destruct hm; reflexivity).
-    assert (Hstop : stopped2 older = true -> s_f (c_sh c) = true \/ s_cur (c_sh c) = e_len e) by (apply stop_state; assumption).
-    apply ev6_intro with o older; try assumption.
-    + rewrite Hruns0. reflexivity.
-    + destruct (call_res_len_iter _ _ _ Hres) as [[-> _]|[-> _]]; reflexivity.
-    + rewrite Hcov0. reflexivity.
-    + rewrite Hcov0. reflexivity.
-    + rewrite Hcov0. reflexivity.
+  - cbn [set_pc t_pc]. intros q0 b0 g0 H. discriminate H.
+  - cbn [app]. rewrite all_rets_ret, (b_evs5 c I), andb_true_r.
+    apply ev5_intro with o older; try assumption.
     + intros H. unfold delivers_nothing. rewrite Hcov0. cbn [iv_total N.eqb andb].
-      assert (Hnp : no_positive (len_res hm a) = true).
-      { destruct a as [n|]; [|destruct hm; reflexivity].
-        destruct (Hsome n eq_refl) as [->|(Hsk & Hz)]; [destruct hm; reflexivity|].
-        destruct (Hsk _ _ Hpend) as [_ Hc]. rewrite (Hz (Hc H)). destruct hm; reflexivity. }
-      rewrite Hnp. destruct (call_res_len_iter _ _ _ Hres) as [[-> _]|[-> _]]; reflexivity.
+      rewrite (Hzero ltac:(unfold stopped2; rewrite H; reflexivity)).
+      destruct (call_res_len_iter _ _ _ Hres) as [[-> ->]|[-> ->]]; reflexivity.
     + intros H. unfold delivers_nothing. rewrite Hcov0. cbn [iv_total N.eqb andb].
-      assert (Hf : s_f (c_sh c) = true) by (apply (b_skip c I); eapply skip_returned_suffix; eassumption).
-      assert (a = Some 0) as ->.
-      { destruct a as [n|]; [|rewrite (Hnone eq_refl) in Hf; discriminate].
-        destruct (Hsome n eq_refl) as [->|(Hsk & _)]; [reflexivity|]. destruct (Hsk _ _ Hpend) as [Hs0 _]. rewrite Hs0 in H. discriminate. }
+      rewrite (Hzero ltac:(unfold stopped2; rewrite H; apply orb_true_r)).
       destruct (call_res_len_iter _ _ _ Hres) as [[-> ->]|[-> ->]]; reflexivity.
     + destruct (call_res_len_iter _ _ _ Hres) as [[-> _]|[-> _]]; reflexivity.
-  - apply (b_cs c I).
   - cbn [set_pc t_pc]. intros hm' o' older' H. discriminate H.
+  - intros Hfu BF. split; [|split].
+    + cbn [app]. intros Hf. destruct (bf_f c BF Hf) as [H|[H|H]]; [left; exact H|right; left; exact H|right; right].
+      cbn [has_panic]. rewrite H. apply orb_true_r.
+    + cbn [app]. rewrite all_rets_ret, (bf_evs c BF), andb_true_r.
+      apply ev234_intro with o older; try assumption.
+      * rewrite Hruns0. reflexivity.
+      * destruct (call_res_len_iter _ _ _ Hres) as [[-> _]|[-> _]]; reflexivity.
+      * rewrite Hcov0. reflexivity.
+      * rewrite Hcov0. reflexivity.
+      * rewrite Hcov0. reflexivity.
+    + apply (bf_cs c BF).
 Qed.
 
 Lemma iB_len c t hm : IInvA e L c -> IInvB c -> In t L -> t_pc (c_pool c t) = PLen hm -> IInvB (step e c t).
@@ -709,12 +885,13 @@ Proof.
   - destruct (e_hint e).
     + (* exact hint: the reserved counter is read next *)
       apply iB_silent; try assumption; auto.
-      * apply (b_cs c I).
       * apply nt_keep; try assumption; auto; rewrite Hpc; cbn [before_gate]; auto.
+      * intros q0 b0 g0 H. discriminate H.
       * intros hm' o older _ Hp.
         destruct (skip_returned older) eqn:Es; [|reflexivity].
         pose proof (pend_suffix _ _ _ _ Hp) as Hsuf.
         pose proof (b_skip c I (skip_returned_suffix _ _ Hsuf Es)). congruence.
+      * intros Hfu BF. split; [auto|split; [auto|apply (bf_cs c BF)]].
     + apply (iB_len_ret c t hm None); try assumption; [discriminate|auto].
     + apply (iB_len_ret c t hm None); try assumption; [discriminate|auto].
 Qed.
@@ -725,12 +902,10 @@ Proof.
   assert (Hni : is_idle (c_pool c t) = false) by (unfold is_idle; rewrite Hpc; reflexivity).
   assert (Hent : entry_of (t_pc (c_pool c t)) = PLen hm) by (rewrite Hpc; reflexivity).
   apply (iB_len_ret c t hm (Some (k_len e (s_c (c_sh c))))); try assumption.
-  - intros n E. injection E as <-. right. split.
-    + intros o older Hp. split; [apply (b_len2 c I t hm o older Hpc Hp)|].
-      intros He'. pose proof (b_nt c I t) as Hnt. unfold nt_ok in Hnt. rewrite Hp in Hnt.
-      destruct (Hnt ltac:(unfold stopped2; rewrite He'; reflexivity)) as (Hn1 & _ & _).
-      unfold NT in Hn1. rewrite Hpc in Hn1. cbn [before_gate] in Hn1. destruct Hn1 as [H|[_ H]]; [exact H|discriminate].
-    + intros Hc. pose proof (b_cs c I). unfold k_len. destruct (N.ltb_spec (s_c (c_sh c)) (e_len e)); [lia|reflexivity].
+  - intros n E. injection E as <-. right.
+    intros o older Hp. pose proof (b_nt c I t) as Hnt. unfold nt_ok in Hnt. rewrite Hp in Hnt.
+    destruct (stopped2 older); [|reflexivity].
+    destruct (Hnt eq_refl) as ((_ & Hn1) & _ & _). rewrite Hpc in Hn1. cbn [before_gate] in Hn1. discriminate.
   - discriminate.
 Qed.
 
@@ -757,7 +932,14 @@ Qed.
 
 Lemma iB_init progs : IInvB (init progs).
 Proof.
-  split; cbn [init c_pool c_trace c_sh s_f s_cur s_c]; try discriminate; try reflexivity; try lia.
+  split.
+  - cbn [init c_trace end_reported]. discriminate.
+  - cbn [init c_trace skip_returned]. discriminate.
+  - intros t. unfold nt_ok. cbn [init c_trace pend_call]. exact I0.
+  - intros t q b g H. cbn [init c_pool init_ts t_pc] in H. discriminate H.
+  - reflexivity.
+  - intros t hm o older H. cbn [init c_pool init_ts t_pc] in H. discriminate H.
+  - intros _. split; cbn [init c_pool c_trace c_sh s_f s_cur s_c]; try discriminate; try reflexivity; try lia.
 Qed.
 
 Theorem iAB_exec progs sched :
